@@ -223,3 +223,68 @@ def block_top_shift(line, lines, v):
     reveal(block_ignores, [line] + lines, v.line + 1, v.rule_id)
     reveal(block_ignores, lines, v.line, v.rule_id)
     return call(IG + "_check_block_ignore", [line] + lines, shifted(v, 1)) == call(IG + "_check_block_ignore", lines, v)
+
+
+# ================================================================== Rust SRP lines of code (RustSRPAnalyzer._node_loc, contract in c16_srp.py)
+from contracts.c16_srp import rs_is_code_line, rs_node_lines, rs_node_loc, RustAnalyzerT  # noqa: E402
+
+RS_NODE_LOC = "src/linters/srp/rust_analyzer.py::RustSRPAnalyzer._node_loc"
+
+
+def rs_count(lines):
+    return sum(1 for line in lines if rs_is_code_line(line))
+
+
+@opaque
+def rcc(s: SeqOf(Str)) -> Int:
+    """Number of Rust code lines (non-blank, not starting a `//` comment) as an explicit recursion (proof device)."""
+    if len(s) == 0:
+        return 0
+    return (1 if rs_is_code_line(s[0]) else 0) + rcc(s[1:])
+
+
+@lemma(props=["C13"], types=dict(s=SeqOf(Str)), name="rust-loc-count-unfold")
+def rcc_eq(s):
+    reveal(rcc, s)
+    if len(s) == 0:
+        return rcc(s) == rs_count(s)
+    ih(rcc_eq, s[1:])
+    return rcc(s) == rs_count(s)
+
+
+@lemma(props=["C13"], types=dict(x=Str, t=SeqOf(Str)), name="rust-loc-count-cons")
+def rcc_cons(x, t):
+    reveal(rcc, [x] + t)
+    return rcc([x] + t) == (1 if rs_is_code_line(x) else 0) + rcc(t)
+
+
+@lemma(props=["C13"], types=dict(pre=SeqOf(Str), ins=Str, post=SeqOf(Str), h=Str, t=SeqOf(Str)), name="rust-loc-insert-step")
+def rcc_insert(pre, ins, post, h, t):
+    if rs_is_code_line(ins):
+        return True
+    if len(pre) == 0:
+        use(rcc_cons, ins, post)
+        return rcc(pre + [ins] + post) == rcc(pre + post)
+    if pre != [h] + t:
+        return True
+    use(rcc_cons, h, t + [ins] + post)
+    use(rcc_cons, h, t + post)
+    use(seq_decompose, t)
+    ih(rcc_insert, t, ins, post, t[0] if len(t) > 0 else "", t[1:])
+    return rcc(pre + [ins] + post) == rcc(pre + post)
+
+
+@lemma(props=["C13"], types=dict(self=RustAnalyzerT, n1=TSNode, s1=Str, n2=TSNode, s2=Str, pre=SeqOf(Str), ins=Str, post=SeqOf(Str)),
+       name="rust-node-loc-invariant-under-blank-or-comment-line-insertion")
+def rs_node_loc_insert(self, n1, s1, n2, s2, pre, ins, post):
+    """Two (item, source) pairs whose item texts differ by one inserted blank or `//` comment-only line have the same
+    Rust LOC."""
+    if n1 is None or n2 is None:
+        return True
+    if rs_is_code_line(ins) or rs_node_lines(n1, s1) != pre + post or rs_node_lines(n2, s2) != pre + [ins] + post:
+        return True
+    use(rcc_eq, pre + [ins] + post)
+    use(rcc_eq, pre + post)
+    use(seq_decompose, pre)
+    use(rcc_insert, pre, ins, post, pre[0] if len(pre) > 0 else "", pre[1:])
+    return call(RS_NODE_LOC, self, n1, s1) == call(RS_NODE_LOC, self, n2, s2)
